@@ -121,9 +121,12 @@ def main():
   kf = os.path.join(ROOT, 'known_findings.json')
   manifest = {
       'version': 1,
-      'setup_cmd': ('/venv/bin/python -c "import hypothesis" 2>/dev/null || '
+      'setup_cmd': ('(/venv/bin/python -c "import hypothesis" 2>/dev/null || '
                     '/venv/bin/pip install --no-index --find-links '
-                    '/opt/veriftools/wheels hypothesis'),
+                    '/opt/veriftools/wheels hypothesis) && '
+                    '(/venv/bin/pip install -q --no-index --find-links /opt/veriftools/wheels '
+                    '--target /verif/.deps atheris || echo "atheris not installed: '
+                    'the optional second engine is skipped")'),
       'hooks': {
           'guard': 'GOOGLE_FEDJAX_VERIF',
           'enable': 'no source hooks: checks import /repo (or $VERIF_REPO) as is; '
@@ -141,6 +144,14 @@ def main():
           'kind_free_text': 'Hypothesis 6.168 generated-input search (cases are JSON data; '
                             'collect-then-shrink; 16 sharded worker processes; '
                             'replay tier of committed cases) with explicit oracles per property',
+      }, {
+          'name': 'vf.fuzz',
+          'path': '/verif/vf/fuzz.py',
+          'serves_properties': [p for p in ('C03', 'C04', 'C15', 'C16') if p in READY],
+          'kind_free_text': 'Atheris 3.1 (libFuzzer) coverage-guided byte mutation decoded by the '
+                            "same Hypothesis strategies (fuzz_one_input) into the same JSON cases and "
+                            'judged by the same oracles; extra processes beside the Hypothesis shards; '
+                            'optional (skipped with a note if Atheris is not installed)',
       }],
       'checks': checks,
       'not_applicable': na,
